@@ -283,7 +283,39 @@ def eval_objects(case):
     return out
 
 
-EVALS = {"generate": eval_generate, "keytext": eval_keytext, "render": eval_render, "history": eval_history, "objects": eval_objects}
+def eval_factories(case):
+    """customised classes made with using(alg= / digits= / period=) in the given order, then objects of the FIRST
+    factory, of the last one and of the class they were derived from: each object computes with the settings of
+    its own class (the parent keeps its defaults, an earlier factory is not changed by a later one)"""
+    key = case["key"]
+    out = []
+    try:
+        base = base_cls()
+        base_set = (base.alg, base.digits, base.period)
+        made = []
+        for opts in case["using"]:
+            made.append((base.using(**opts), opts))
+        checks = [(base, base_set, "parent class")]
+        for F, opts in made:
+            want = (opts.get("alg", base_set[0]), int(opts.get("digits", base_set[1])), int(opts.get("period", base_set[2])))
+            checks.append((F, want, f"factory using({opts})"))
+        for cls_, (alg, digits, period), who in checks:
+            o = cls_(key, format="raw")
+            for t in (59, 1111111109):
+                tok = o.generate(t)
+                want = R.hotp(key, R.time_counter(t, period), digits, alg)
+                if tok.token != want or (o.alg, o.digits, o.period) != (alg, digits, period):
+                    out.append((f"C13|factories|settings_leak:{'parent' if who == 'parent class' else 'factory'}",
+                                f"after using() calls {case['using']}: an object of the {who} has (alg, digits, period) = {(o.alg, o.digits, o.period)}, expected {(alg, digits, period)}; "
+                                f"generate({t}) = {tok.token!r}, RFC value for the expected settings {want!r}"))
+                    return out
+    except Exception as e:  # noqa: BLE001
+        out.append((f"C13|factories|raises:{type(e).__name__}", f"using() sequence {case['using']} raised {e!r}"))
+    return out
+
+
+EVALS = {"generate": eval_generate, "keytext": eval_keytext, "render": eval_render, "history": eval_history, "objects": eval_objects,
+         "factories": eval_factories}
 
 
 def replay(case):
@@ -414,6 +446,20 @@ def work(task):
                 for k, desc in found:
                     acc.violation(k, desc, case)
                 acc.outcome("violation" if found else "ok:objects")
+    elif part == "factories":
+        import itertools
+
+        key = make_key(seed, 20)
+        opts = [{"alg": "sha256"}, {"alg": "sha512"}, {"alg": "sha1"}, {"digits": 8}, {"period": 60}, {"alg": "sha256", "digits": 7}]
+        for n in (1, 2, 3):
+            for seq in itertools.permutations(opts, n):
+                case = {"kind": "factories", "key": key, "using": [dict(o) for o in seq]}
+                acc.ev()
+                acc.cls("factories", "/".join(",".join(f"{k}={v}" for k, v in o.items()) for o in seq))
+                found = eval_factories(case)
+                for k, desc in found:
+                    acc.violation(k, desc, case)
+                acc.outcome("violation" if found else "ok:factories")
     elif part == "tz":
         alg = task["alg"]
         key = make_key(seed, 20)
@@ -512,6 +558,7 @@ def run(ctx):
     for n in keylens:
         tasks.append({"part": "keytext", "keylen": n, "seed": seed})
     tasks.append({"part": "objects", "depth": 3, "seed": seed})
+    tasks.append({"part": "factories", "seed": seed})
     for alg in ALGS:
         tasks.append({"part": "tz", "alg": alg, "seed": seed})
     for alg in ALGS:
